@@ -92,13 +92,13 @@ Init == l = 1 /\ bad = 0 /\ secs = [c \in Ctxs |-> NoSec] /\ rxs = [c \in Ctxs |
 Next == /\ l <= Len(Trace)
         /\ LET e == Trace[l] c == Cx(e) IN
              IF e.ev = "Start" THEN secs' = [secs EXCEPT ![c] = StartSec(e)] /\ rxs' = [rxs EXCEPT ![c] = RxOf(StartSec(e))] /\ bad' = bad
-             ELSE LET s == IF e.ev = "Enc" THEN StepEnc(e, secs[c], rxs[c])
+             ELSE \E s \in {IF e.ev = "Enc" THEN StepEnc(e, secs[c], rxs[c])
                            ELSE IF e.ev = "Dec" THEN StepDec(e, secs[c], rxs[c])
                            ELSE IF e.ev = "Count" THEN StepCount(e, secs[c], rxs[c])
                            ELSE IF e.ev = "Refuse" THEN StepRefuse(e, secs[c], rxs[c])
                            ELSE IF e.ev = "Held" THEN [r |-> HeldVerdict(e), sec |-> secs[c], rx |-> rxs[c]]
-                           ELSE [r |-> No("no action of the specification matches this event"), sec |-> secs[c], rx |-> rxs[c]]
-                  IN /\ Report(l, e, s.r)
+                           ELSE [r |-> No("no action of the specification matches this event"), sec |-> secs[c], rx |-> rxs[c]]} :
+                     /\ Report(l, e, s.r)
                      /\ secs' = [secs EXCEPT ![c] = s.sec] /\ rxs' = [rxs EXCEPT ![c] = s.rx]
                      /\ bad' = bad + (IF s.r.ok THEN 0 ELSE 1)
         /\ l' = l + 1
